@@ -752,7 +752,7 @@ func (p *parser) PercentEncodeString(s string, tr *PercentEncodeSet) string {
 		if r == '%' {
 			if len(runes) < (i+3) ||
 				(!ASCIIHexDigit.Test(uint(runes[i+1])) || !ASCIIHexDigit.Test(uint(runes[i+2]))) {
-				if p.opts.percentEncodeSinglePercentSign {
+				if p.opts.percentEncodeSinglePercentSign && tr != nil {
 					buffer.WriteString(p.percentEncodeRune(r, tr.Set(0x25)))
 					continue
 				}
